@@ -4,6 +4,22 @@
 use crate::{enc_version, Expr, Out, MAX};
 use nodejs_semver::{Identifier, Range, Version};
 
+/// the crate may panic on a generated text (that is what C06 looks for): generator-side calls go
+/// through these wrappers so that the harness survives and the panic is reported by the op itself
+pub fn try_range(t: &str) -> Result<Range, ()> {
+    match std::panic::catch_unwind(|| Range::parse(t)) {
+        Ok(Ok(r)) => Ok(r),
+        _ => Err(()),
+    }
+}
+
+pub fn try_version(t: &str) -> Result<Version, ()> {
+    match std::panic::catch_unwind(|| Version::parse(t)) {
+        Ok(Ok(v)) => Ok(v),
+        _ => Err(()),
+    }
+}
+
 pub struct Rng(u64);
 
 impl Rng {
@@ -166,7 +182,7 @@ pub fn neighbours(v: &Version) -> Vec<Version> {
 fn versions_in(text: &str) -> Vec<Version> {
     text.split(|c: char| c == ' ' || c == '|' || c == '<' || c == '>' || c == '=' || c == '*')
         .filter(|t| !t.is_empty())
-        .filter_map(|t| Version::parse(t).ok())
+        .filter_map(|t| try_version(t).ok())
         .collect()
 }
 
@@ -187,8 +203,8 @@ fn version_grid(rng: &mut Rng, printed: &str, extra: usize) -> Vec<Version> {
 
 // ---------------------------------------------------------------- version texts
 
-const TAGS: &[&str] = &["alpha", "beta.1", "0", "1", "rc.1", "a", "-", "0a", "a-b", "x", "7.8", "alpha.0"];
-const BUILDS: &[&str] = &["build", "1", "b.7", "-", "exp.sha.5114f85"];
+const TAGS: &[&str] = &["alpha", "beta.1", "0", "1", "rc.1", "a", "-", "0a", "a-b", "x", "7.8", "alpha.0", "0.0", "a.a", "rc.1.rc", "1.x.1", "-.-"];
+const BUILDS: &[&str] = &["build", "1", "b.7", "-", "exp.sha.5114f85", "7.7", "b.b", "b.1.b"];
 
 fn gen_num_text(rng: &mut Rng) -> String {
     match rng.below(12) {
@@ -294,9 +310,10 @@ fn exhaustive(alphabet: &str, max_len: usize, f: &mut dyn FnMut(&str)) {
 // ---------------------------------------------------------------- range texts
 
 fn gen_small(rng: &mut Rng) -> String {
-    match rng.below(14) {
-        0 => MAX.to_string(),
-        1 => format!("0{}", rng.below(4)),
+    match rng.below(40) {
+        0 | 1 | 2 => MAX.to_string(),
+        3 | 4 | 5 => format!("0{}", rng.below(4)),
+        6 => rng.pick(&["900719925474100", "18446744073709551615", "18446744073709551614", "18446744073709551616", "00018446744073709551615"]).to_string(),
         _ => rng.pick(&["0", "0", "1", "1", "2", "3", "10"]).to_string(),
     }
 }
@@ -466,14 +483,14 @@ fn intervals(chain: &[&str]) -> Vec<String> {
 }
 
 fn parsed(texts: Vec<String>) -> Vec<(String, Range)> {
-    texts.into_iter().filter_map(|t| Range::parse(&t).ok().map(|r| (t, r))).collect()
+    texts.into_iter().filter_map(|t| try_range(&t).ok().map(|r| (t, r))).collect()
 }
 
 fn gen_multi(rng: &mut Rng, base: &[(String, Range)]) -> (String, Range) {
     loop {
         let n = *rng.pick(&[1usize, 2, 2, 3]);
         let t = (0..n).map(|_| rng.pick(base).0.clone()).collect::<Vec<_>>().join("||");
-        if let Ok(r) = Range::parse(&t) {
+        if let Ok(r) = try_range(&t) {
             return (t, r);
         }
     }
@@ -621,6 +638,49 @@ pub fn run_stream(name: &str, thorough: bool, rng: &mut Rng, o: &mut Out) {
                 o.vround(&t);
                 let t = format!("v1.2.3-{}", "a".repeat(total - 7));
                 o.vround(&t);
+            }
+        }
+        "vfround" => {
+            // versions built from canonical identifiers (not through the parser), incl. repeated ones
+            let reps: Vec<Vec<Identifier>> = vec![
+                vec![num(0), num(0)], vec![al("a"), al("a")], vec![al("rc"), num(1), al("rc")], vec![num(7), num(7)],
+                vec![al("x"), num(1), al("x")], vec![al("-"), al("-")], vec![num(1), al("x"), num(1)],
+            ];
+            for _ in 0..6000 * scale {
+                let mut v = gen_version(rng, false);
+                v.major %= MAX + 1;
+                v.minor %= MAX + 1;
+                v.patch %= MAX + 1;
+                if rng.chance(1, 5) {
+                    v.pre_release = rng.pick(&reps).clone();
+                }
+                if rng.chance(1, 8) {
+                    v.build = rng.pick(&reps).clone();
+                }
+                o.vfround(&v);
+            }
+        }
+        "rparse_limits" => {
+            // every operator x partial shape with a component at / around the numeric limits
+            let lim = ["900719925474099", "900719925474100", "18446744073709551614", "18446744073709551615", "18446744073709551616", "000900719925474099"];
+            let ops = ["", "=", ">", ">=", "<", "<=", "~", "~>", "^", "> ", "^ "];
+            for l in lim {
+                let shapes = [
+                    format!("{}", l), format!("{}.1", l), format!("1.{}", l), format!("{}.1.2", l), format!("1.{}.2", l), format!("1.2.{}", l),
+                    format!("0.0.{}", l), format!("0.{}.1", l), format!("{}.x", l), format!("1.{}.x", l), format!("1.2.{}-rc", l), format!("{}.{}.{}", l, l, l),
+                ];
+                for sh in &shapes {
+                    for op in ops {
+                        o.rparse(&format!("{}{}", op, sh));
+                        o.rparse(&format!("1.2.3 || {}{}", op, sh));
+                    }
+                    o.rparse(&format!("1 - {}", sh));
+                    o.rparse(&format!("{} - 2", sh));
+                    if let Ok(r) = try_range(sh) {
+                        o.minv(sh, &r);
+                        o.rround(sh);
+                    }
+                }
             }
         }
         "vdiff" => {
@@ -771,7 +831,7 @@ pub fn run_stream(name: &str, thorough: bool, rng: &mut Rng, o: &mut Out) {
                     (gen_comparator_list(rng), gen_comparator_list(rng))
                 };
                 let joined = format!("{} || {}", a, b);
-                let printed = Range::parse(&joined).map(|r| r.to_string()).unwrap_or_default();
+                let printed = try_range(&joined).map(|r| r.to_string()).unwrap_or_default();
                 let grid = version_grid(rng, &printed, 2);
                 for _ in 0..6 {
                     let v = rng.pick(&grid).clone();
@@ -780,14 +840,14 @@ pub fn run_stream(name: &str, thorough: bool, rng: &mut Rng, o: &mut Out) {
             }
             for (a, b) in [(">=1.2.3", "<1.0.0"), (" - 1", "2"), ("1", " - 2"), ("foo", "1.2.3"), ("foo", "bar"), (">=1.0.0-0", "<1"), ("^0", ">=0.0.0-0"), ("1.2.3 foo", "4.5.6")] {
                 for v in ["0.5.0", "1.0.0", "1.2.3", "1.0.0-alpha", "0.0.0-0", "2.0.0", "4.5.6"] {
-                    o.c02(a, b, &Version::parse(v).unwrap());
+                    o.c02(a, b, &try_version(v).unwrap());
                 }
             }
         }
         "sat_gram" => {
             for _ in 0..4000 * scale {
                 let t = gen_range_text(rng, true);
-                if let Ok(r) = Range::parse(&t) {
+                if let Ok(r) = try_range(&t) {
                     let printed = r.to_string();
                     for v in version_grid(rng, &printed, 3) {
                         o.sat(&t, &r, &v);
@@ -800,7 +860,7 @@ pub fn run_stream(name: &str, thorough: bool, rng: &mut Rng, o: &mut Out) {
             let pts: Vec<Version> = {
                 let mut p = Vec::new();
                 for c in chain_big() {
-                    p.extend(neighbours(&Version::parse(c).unwrap()));
+                    p.extend(neighbours(&try_version(c).unwrap()));
                 }
                 let mut seen = std::collections::HashSet::new();
                 p.retain(|v| seen.insert(enc_version(v)));
@@ -842,7 +902,7 @@ pub fn run_stream(name: &str, thorough: bool, rng: &mut Rng, o: &mut Out) {
             for _ in 0..5000 * scale {
                 let ta = gen_range_text(rng, false);
                 let tb = gen_range_text(rng, false);
-                if let (Ok(a), Ok(b)) = (Range::parse(&ta), Range::parse(&tb)) {
+                if let (Ok(a), Ok(b)) = (try_range(&ta), try_range(&tb)) {
                     o.setops(&ta, &a, &tb, &b);
                 }
             }
@@ -858,12 +918,12 @@ pub fn run_stream(name: &str, thorough: bool, rng: &mut Rng, o: &mut Out) {
             }
             for _ in 0..6000 * scale {
                 let t = gen_range_text(rng, false);
-                if let Ok(r) = Range::parse(&t) {
+                if let Ok(r) = try_range(&t) {
                     o.minv(&t, &r);
                 }
             }
             for t in [">1.0.0 <1.0.1", "<0.0.0-0 || >=2.0.0", ">1.0.0 || >=1.0.1-0", "<0.0.0", "<0.0.1-0", "<=0.0.0-0", ">1.0.0-a <1.0.0-a.0", ">1.0.0 <1.0.1-0", ">1.0.0 <=1.0.1-0", "*", "<1"] {
-                if let Ok(r) = Range::parse(t) {
+                if let Ok(r) = try_range(t) {
                     o.minv(t, &r);
                 }
             }
@@ -875,7 +935,7 @@ pub fn run_stream(name: &str, thorough: bool, rng: &mut Rng, o: &mut Out) {
                     gen_multi(rng, &base)
                 } else {
                     let t = gen_range_text(rng, false);
-                    match Range::parse(&t) {
+                    match try_range(&t) {
                         Ok(r) => (t, r),
                         Err(_) => continue,
                     }
@@ -1026,6 +1086,10 @@ pub fn replay_line(line: &str, o: &mut Out) {
             Some(a) => o.vfmt(&a),
             None => bad(o),
         },
+        "vfround" => match f.get(1).and_then(|x| dec_version(x)) {
+            Some(a) => o.vfround(&a),
+            None => bad(o),
+        },
         "vparse" | "vround" | "serdev" | "rparse" | "rround" | "serder" | "minv" => match f.get(1).and_then(|x| unhex(x)) {
             Some(t) => match op {
                 "vparse" => o.vparse(&t),
@@ -1034,7 +1098,7 @@ pub fn replay_line(line: &str, o: &mut Out) {
                 "rparse" => o.rparse(&t),
                 "rround" => o.rround(&t),
                 "serder" => o.serder(&t),
-                _ => match Range::parse(&t) {
+                _ => match try_range(&t) {
                     Ok(r) => o.minv(&t, &r),
                     Err(_) => bad(o),
                 },
@@ -1058,7 +1122,7 @@ pub fn replay_line(line: &str, o: &mut Out) {
             }
         }
         "sat" => match (f.get(1).and_then(|x| unhex(x)), f.get(3).and_then(|x| dec_version(x))) {
-            (Some(t), Some(v)) => match Range::parse(&t) {
+            (Some(t), Some(v)) => match try_range(&t) {
                 Ok(r) => o.sat(&t, &r, &v),
                 Err(_) => bad(o),
             },
@@ -1073,7 +1137,7 @@ pub fn replay_line(line: &str, o: &mut Out) {
             _ => bad(o),
         },
         "isect" | "rdiff" | "any" | "all" => match (f.get(1).and_then(|x| unhex(x)), f.get(2).and_then(|x| unhex(x))) {
-            (Some(ta), Some(tb)) => match (Range::parse(&ta), Range::parse(&tb)) {
+            (Some(ta), Some(tb)) => match (try_range(&ta), try_range(&tb)) {
                 // the four set operations are always emitted together; replay emits all four
                 (Ok(a), Ok(b)) => o.setops(&ta, &a, &tb, &b),
                 _ => bad(o),
@@ -1095,7 +1159,7 @@ pub fn replay_line(line: &str, o: &mut Out) {
                     None => break,
                 }
             }
-            match t.and_then(|t| Range::parse(&t).ok().map(|r| (t, r))) {
+            match t.and_then(|t| try_range(&t).ok().map(|r| (t, r))) {
                 Some((t, r)) => o.maxmin(&t, &r, &vs),
                 None => bad(o),
             }
